@@ -619,6 +619,9 @@ def cases(tier, seed):
             add(s, mask=False, nan=False, negmax=0, minmax=True)
     # a label whose pixels are all masked / NaN while its box is not
     add('diag', True, nan=True, negmax=0)
+    # extreme-value indices when the extreme pixel may be masked / NaN
+    add('single-edge', True, nan=False, negmax=0, minmax=True)
+    add('gaps', False, nan=True, negmax=0, minmax=True)
     add('touching', False, nan=False, conv=True, negmax=1)
     add('touching', False, nan=True, conv=True, negmax=0)
     add('gaps', False, nan=True, conv=True, negmax=0, order=True)
@@ -739,6 +742,19 @@ def replay(f):
             if not close(gv, x):
                 bad = True
                 msgs.append(f'label {lab} {q}: got {gv} expected {x}')
+        # extreme-value indices: a labelled, unmasked, finite pixel that
+        # holds the extreme value
+        if G and 'minval_yindex' in got:
+            v = np.array([d[p_] for p_ in G])
+            for nm, ext in (('minval', v.min()), ('maxval', v.max())):
+                iy = int(np.atleast_1d(got[nm + '_yindex'])[k])
+                ix = int(np.atleast_1d(got[nm + '_xindex'])[k])
+                if (iy, ix) not in [(int(a), int(b_)) for a, b_ in G] or \
+                        d[iy, ix] != ext:
+                    bad = True
+                    msgs.append(f'label {lab} {nm}_index ({iy},{ix}) is not '
+                                f'a labelled unmasked finite pixel holding '
+                                f'{ext}')
     return bad, f'data={d.tolist()} mask=' \
         f'{None if mask is None else mask.tolist()} ' + (
             f'convolved/detection={c.tolist()} ' if (p['conv'] or p['detcat'])
